@@ -43,6 +43,8 @@ def _get_output(array, out, fname, dtype=None, output=None):
         raise ValueError('mahotas.%s: `out` has wrong shape (got %s, while expecting %s)%s' % (fname, out.shape, array.shape, detail))
     if not out.flags.contiguous:
         raise ValueError('mahotas.%s: `out` is not c-array%s' % (fname,detail))
+    if not out.flags.writeable:
+        raise ValueError('mahotas.%s: `out` is read-only%s' % (fname,detail))
     return out
 
 def _get_axis(array, axis, fname):
